@@ -4,6 +4,7 @@ Every instance created here emits a call event (see vt.rec) and exposes the valu
 constructed with, so `vf.canon` can compare a built object graph with a directly
 constructed one.
 """
+import abc
 import collections
 import dataclasses
 import enum
@@ -47,6 +48,27 @@ class Leaf(Mid):
 
 
 class Other(RecObj):
+  def __init__(self, x=0, child=None):
+    self._record(locals())
+
+
+class VirtualBase(abc.ABC):
+  """An ABC whose subclasses are VIRTUAL: Other by registration, everything with a `hooked`
+  attribute through __subclasshook__. issubclass() says yes, the MRO does not contain it."""
+
+  @classmethod
+  def __subclasshook__(cls, sub):
+    if cls is VirtualBase and any('hooked' in c.__dict__ for c in sub.__mro__):
+      return True
+    return NotImplemented
+
+
+VirtualBase.register(Other)
+
+
+class Hooked(RecObj):
+  hooked = True
+
   def __init__(self, x=0, child=None):
     self._record(locals())
 
